@@ -4,12 +4,12 @@
 //@ functions: TraceSlider::new; TraceSlider::next_state; TraceSlider::set_position_and_len; TraceSlider::set_subtrace_len; TraceSlider::subtrace_len; TraceSlider::position
 //@ assumes: trace entries are heap-free Par(0,0) placeholders (the slider never inspects them); trace length is concrete per harness (0, 3, 4)
 //@ stubs: <ExecutedState as Clone>::clone -> returns Par(0,0): exact for the placeholder traces used here (every entry is Par(0,0)); without it CBMC explores the clone glue of every ExecutedState variant at each next_state (> 30 GB, measured)
-//@ harness: name=c01_slider_set_position_and_len props=C01 panicfree=1 cap=120 cost=5 sym="position,subtrace_len: any u32" bound="3-entry trace"
-//@ harness: name=c01_slider_ops3 props=C01 panicfree=1 cap=300 cost=40 sym="3 operations chosen symbolically among set_position_and_len/set_subtrace_len/subtrace_len with any u32 arguments" bound="3-entry trace, 3 operations"
-//@ harness: name=c01_slider_ops_empty props=C01 panicfree=1 cap=300 cost=20 sym="as ops3" bound="empty trace, 3 operations"
-//@ harness: name=c09_slider_accepts_exactly_fitting props=C09,C04 cap=120 cost=5 sym="position,subtrace_len: any u32 with position+len <= u32::MAX" bound="4-entry trace"
-//@ harness: name=c09_slider_interval_exactly_once props=C09,C07 cap=300 cost=30 sym="position, subtrace_len: any u32 with position+len <= u32::MAX" bound="4-entry trace, <= 6 next_state calls"
-//@ harness: name=c09_slider_vacuity props=C09 expect=fail cap=300 cost=30 sym="as c09_slider_interval_exactly_once" bound="same"
+//@ harness: name=c01_slider_set_position_and_len playback=1 props=C01 panicfree=1 cap=120 cost=5 sym="position,subtrace_len: any u32" bound="3-entry trace"
+//@ harness: name=c01_slider_ops3 playback=1 props=C01 panicfree=1 cap=300 cost=40 sym="3 operations chosen symbolically among set_position_and_len/set_subtrace_len/subtrace_len with any u32 arguments" bound="3-entry trace, 3 operations"
+//@ harness: name=c01_slider_ops_empty playback=1 props=C01 panicfree=1 cap=300 cost=20 sym="as ops3" bound="empty trace, 3 operations"
+//@ harness: name=c09_slider_accepts_exactly_fitting playback=1 props=C09,C04 cap=120 cost=5 sym="position,subtrace_len: any u32 with position+len <= u32::MAX" bound="4-entry trace"
+//@ harness: name=c09_slider_interval_exactly_once playback=1 props=C09,C07 cap=300 cost=30 sym="position, subtrace_len: any u32 with position+len <= u32::MAX" bound="4-entry trace, <= 6 next_state calls"
+//@ harness: name=c09_slider_vacuity playback=1 props=C09 expect=fail cap=300 cost=30 sym="as c09_slider_interval_exactly_once" bound="same"
 
 use super::*;
 use air_interpreter_data::ExecutedState;
